@@ -2971,13 +2971,28 @@ def run_set_membership(ctx):
     rng = ctx.rng
     nsets = 120 if ctx.quick else 900
     lines, meta = [], []
-    for si in range(nsets):
-        S = gen_pset(rng)
+    # fixed probes (every seed): complex values offered to interval products (C20-F13, repaired
+    # in /repo 1a77968), the zero-dimensional interval product, strings as sequences
+    fixed = [(odl.IntervalProd(0, 1), [np.complex64(0.5 + 1j), 0.5 + 1j, np.complex128(0.5),
+                                       (np.complex64(0.5 + 1j),), [np.complex128(0.5)], 0.5,
+                                       np.float32(0.5), None, 'a', True, 2]),
+             (odl.IntervalProd([0, 0], [1, 1]), [[0.5, np.complex128(0.5 + 2j)], (0.5, 0.5 + 2j),
+                                                 (0.5, 0.5), [0.5, None], (0.5, (0.5,)), 0.5]),
+             (odl.SetUnion(odl.Integers(), odl.IntervalProd(0, 1)), [np.complex64(0.5), 0.5, 2, 2.0]),
+             (odl.IntervalProd([], []), [(), [], 0.0, (0.5,)]),
+             (odl.CartesianProduct(odl.Strings(1), odl.Strings(1)), ['ab', ('a', 'b'), 'a', 'abx'])]
+    for si in range(nsets + len(fixed)):
+        if si < len(fixed):
+            S, vals = fixed[si]
+        else:
+            S = gen_pset(rng)
+            vals = None
         try:
             wire = describe_pset(S)
         except ValueError:
             wire = None                    # outside the model: oracle only
-        vals = [gen_val(rng) for _ in range(6)] + [targeted_val(rng, S) for _ in range(10)]
+        if vals is None:
+            vals = [gen_val(rng) for _ in range(6)] + [targeted_val(rng, S) for _ in range(10)]
         keep, wv = [], []
         for v in vals:
             try:
